@@ -25,7 +25,9 @@ RULE = ("base: 1-8 distinct atoms with neutron data (ions, isotopes, D/T, energy
         "string and as a dict (unchanged, rel 1e-11); a regrouped variant = permutation, split counts, 1-3 nesting "
         "levels of implicit/explicit groups with multipliers, same multiset verified in Fractions (unchanged, rel 1e-11); "
         "dict route vs string route; energy=E vs wavelength=neutron_wavelength(E) (rel 1e-12); vector call of length "
-        "1..12 (list/array) vs the scalar calls (shape exact, rel 1e-14); every result: imaginary and incoherent SLD, "
+        "1..12 (list/array) vs the scalar calls (shape exact, rel 1e-14); the same vector call repeated straight away at "
+        "density x k, and again (twice) after the caller overwrote that list/array in place with other wavelengths "
+        "(entries vs scalar calls and vs the density relation: a result must not depend on earlier calls); every result: imaginary and incoherent SLD, "
         "cross sections, penetration >= 0. Every comparison adds the floor 1e-13 x operand scale. Conversions: E, "
         "lambda, v over 6 decades, scalar and vector. non-trivial = (>= 3 distinct atoms and >= 2 nesting levels in the "
         "regrouped variant) or (energy dependent atom and vector length >= 2); distinct by base string, density, wavelengths.")
@@ -134,6 +136,11 @@ def same(bucket, a, b, floors, rel, case, what, factor=None, index=None):
             raise Violation("%s:%s" % (bucket, o), "%s: %s = %r, expected %r" % (what, o, x, y), case)
 
 
+def pick(res, i):
+    np = ng.env()["np"]
+    return dict((o, float(np.asarray(res[o], dtype=float).reshape(-1)[i])) for o in OUTPUTS)
+
+
 def check_relations(ctx, v):
     E = ng.env()
     np, pt, R, pool = E["np"], E["pt"], E["ref"], E["pool"]
@@ -204,6 +211,17 @@ def check_relations(ctx, v):
     for o in OUTPUTS:
         ng.check_shape("c04:vector", o, rv[o], (len(vec),), case)
     nonneg(rv, case, "vector call")
+    # the same compound and the SAME wavelength/energy object again, straight away, at density x k:
+    # a result must not depend on the call before it
+    rv2 = _scat(target, rho * k, **{how: arg})
+    for o in OUTPUTS:
+        ng.check_shape("c04:vector", o, rv2[o], (len(vec),), case)
+    nonneg(rv2, case, "repeated vector call")
+    for i in range(len(vec)):
+        li = vec[i] if how == "wavelength" else R.wavelength(R.energy(vec[i]))
+        fl = R.scattering(comp, rho, li, E["axis"])[1]
+        same("c04:repeat:density-scale", rv, pick(rv2, i), fl, 1e-12, case,
+             "vector call repeated at density x %r, entry %d" % (k, i), fac, index=i)
     for i in range(len(vec)):
         x = arg[i]
         x = float(x)
@@ -214,6 +232,26 @@ def check_relations(ctx, v):
         fl = R.scattering(comp, rho, li, E["axis"])[1]
         same("c04:vector-vs-scalar", rv, rs, fl, 1e-14, case,
              "%s[%d] of the vector call vs scalar %s=%r" % (how, i, how, x), index=i)
+    # the caller overwrites the same list/array with other wavelengths and calls again (twice in a row)
+    vec2 = [v["vec2"][i % len(v["vec2"])] for i in range(len(vec))] if v.get("vec2") else None
+    if vec2:
+        vals = [R.energy(l) for l in vec2] if how == "energy" else vec2
+        arg[:] = vals
+        ra = _scat(target, rho, **{how: arg})
+        rb = _scat(target, rho * k, **{how: arg})
+        for o in OUTPUTS:
+            ng.check_shape("c04:vector", o, ra[o], (len(vec),), case)
+            ng.check_shape("c04:vector", o, rb[o], (len(vec),), case)
+        nonneg(ra, case, "vector call after the wavelengths changed in place")
+        for i in range(min(len(vec2), 4)):
+            x = float(vals[i])
+            rs = _scat(target, rho, **{how: x})
+            li = vec2[i] if how == "wavelength" else R.wavelength(R.energy(vec2[i]))
+            fl = R.scattering(comp, rho, li, E["axis"])[1]
+            same("c04:repeat:wavelengths-changed-in-place", ra, rs, fl, 1e-14, case,
+                 "%s[%d] after the caller overwrote the vector in place vs scalar %s=%r" % (how, i, how, x), index=i)
+            same("c04:repeat:density-scale", ra, pick(rb, i), fl, 1e-12, case,
+                 "overwritten vector repeated at density x %r, entry %d" % (k, i), fac, index=i)
 
 
 # ----------------------------------------------------------------------
@@ -291,6 +329,7 @@ def strat_relations():
         "kf": logf(-3, 3),
         "r": st.lists(st.integers(0, 10 ** 6), min_size=6, max_size=12),
         "vec": st.lists(ng.one_wavelength(), min_size=1, max_size=12),
+        "vec2": st.lists(ng.one_wavelength(), min_size=1, max_size=6),
         "vform": st.sampled_from(["list", "array"]),
         "vby": st.sampled_from(["wavelength", "wavelength", "energy"]),
         "vvar": st.booleans(),
